@@ -71,6 +71,11 @@ func traverseFields(path []string, key string, value any, f func([]string, any) 
 		if isKeyOp(key) && isOpComplex(key) {
 			return false
 		}
+		if len(path) == 0 {
+			// a value reached through operator keys only (e.g. `{_alias: {_eq: {_ge: 0}}}`)
+			// belongs to no field
+			return true
+		}
 		return f(path, value)
 	}
 	return true
